@@ -100,6 +100,29 @@ func c18ServerTLS() *tls.Config {
 	return c18SrvTLS
 }
 
+// c18Transport wraps the default transport (HostClient.Transport is a public extension point): it sees,
+// for every attempt of a Do call, the time budget Do hands to the attempt (req.timeout).  RoundTrip passes
+// exactly this value to AcquireConn as the waiter's own deadline.
+type c18Transport struct {
+	before func(req *Request)
+	after  func()
+}
+
+func (t *c18Transport) RoundTrip(hc *HostClient, req *Request, resp *Response) (bool, error) {
+	t.before(req)
+	retry, err := DefaultTransport.RoundTrip(hc, req, resp)
+	t.after()
+	return retry, err
+}
+
+// c18CallBudget is the harness' view of one Do call with a timeout.
+type c18CallBudget struct {
+	timeout  time.Duration
+	attempts int
+	first    time.Time // entry of the first attempt: Do computed its deadline before this instant
+	prevEnd  time.Time // return of the previous attempt: Do computes the next budget after this instant
+}
+
 type c18Who struct {
 	k  string
 	id int
@@ -506,6 +529,9 @@ func c18RunOne(rng *rand.Rand, cfg c18Cfg) (ex c18Exec, key, detail string) {
 		case k < 92: // answers, then closes without saying so: the pooled connection is dead
 			c.push(c18Resp)
 			c.srvClose()
+		case k < 96: // thinks for a while, then closes without answering: a late, retriable failure
+			time.Sleep(time.Duration(500+k*40) * time.Microsecond)
+			c.srvClose()
 		default: // closes before answering
 			c.srvClose()
 		}
@@ -540,6 +566,42 @@ func c18RunOne(rng *rand.Rand, cfg c18Cfg) (ex c18Exec, key, detail string) {
 			key, detail = k, d
 		}
 		vmu.Unlock()
+	}
+	// Budget oracle for calls with a timeout (no clock race: only inequalities that hold for every schedule).
+	// Do computes its deadline D before the first attempt starts (D <= first + timeout) and the budget of
+	// attempt k > 1 after attempt k-1 has returned, so budget_k = D - now' <= timeout - (prevEnd - first).
+	// A retry that is handed more than that would let its waiter sit in the queue past the call's deadline.
+	var bmu sync.Mutex
+	budgets := map[uint64]*c18CallBudget{}
+	hc.Transport = &c18Transport{
+		before: func(req *Request) {
+			now := time.Now()
+			bmu.Lock()
+			b := budgets[c18Gid()]
+			bmu.Unlock()
+			if b == nil || b.timeout <= 0 {
+				return
+			}
+			b.attempts++
+			if b.attempts == 1 {
+				b.first = now
+				if req.timeout > b.timeout {
+					viol("attempt-budget-exceeds-timeout", fmt.Sprintf("first attempt of a call with timeout %v got a budget of %v", b.timeout, req.timeout))
+				}
+				return
+			}
+			if allowed := b.timeout - b.prevEnd.Sub(b.first); req.timeout > allowed {
+				viol("retry-budget-not-shrunk", fmt.Sprintf("attempt %d of a call with timeout %v was handed a budget of %v (passed on to AcquireConn as the waiter's deadline) although at most %v of the call's time was left", b.attempts, b.timeout, req.timeout, allowed))
+			}
+		},
+		after: func() {
+			bmu.Lock()
+			b := budgets[c18Gid()]
+			bmu.Unlock()
+			if b != nil {
+				b.prevEnd = time.Now()
+			}
+		},
 	}
 	var lentFlags sync.Map // connection id -> *atomic.Int32
 	flagOf := func(id int) *atomic.Int32 {
@@ -665,8 +727,20 @@ func c18RunOne(rng *rand.Rand, cfg c18Cfg) (ex c18Exec, key, detail string) {
 					resp := AcquireResponse()
 					req.SetRequestURI("http://c18.test/x")
 					var err error
-					if wrng.Intn(3) == 0 {
-						err = hc.DoTimeout(req, resp, time.Duration(1+wrng.Intn(40))*time.Millisecond)
+					if wrng.Intn(2) == 0 {
+						d := time.Duration(1+wrng.Intn(40)) * time.Millisecond
+						gid := c18Gid()
+						bmu.Lock()
+						budgets[gid] = &c18CallBudget{timeout: d}
+						bmu.Unlock()
+						if wrng.Intn(2) == 0 {
+							err = hc.DoTimeout(req, resp, d)
+						} else {
+							err = hc.DoDeadline(req, resp, time.Now().Add(d))
+						}
+						bmu.Lock()
+						delete(budgets, gid)
+						bmu.Unlock()
 					} else {
 						err = hc.Do(req, resp)
 					}
